@@ -132,10 +132,14 @@ def run_cases(ctx, cases, label):
         cls = impgen.known_class(c["sig"]) or "supported"
         want = f"exact {c['hops']}"
         ok = a == want and b == want
-        ctx.hist[f"{label}:{cls}:{'exact' if ok else a.split(' ')[0]}"] += 1
+        if c.get("free"):
+            # a base packet outside C05's quantifier (C14 only): no verdict on the match, everything else applies
+            ctx.hist[f"{label}:free-base:{'exact' if ok else a.split(' ')[0]}"] += 1
+        else:
+            ctx.hist[f"{label}:{cls}:{'exact' if ok else a.split(' ')[0]}"] += 1
         if ok and cls == "supported":
             ctx.nontrivial.add(line)
-        if not ok and a == b:
+        if not ok and a == b and not c.get("free"):
             ctx.failures.append(Failure("property-failure",
                                         f"the impersonated packet is fingerprinted as {a!r}, not 'exact' at distance {c['hops']} (signature {c['sig']!r})",
                                         op=line, impl=a, model=b, extra={"sig": c["sig"], "imprun_op": op, "stream": label}))
